@@ -201,6 +201,8 @@ def kbmag_text(table, layout):
     names, n, trans, initial = table["names"], table["n"], table["transitions"], table["initial"]
     eol = layout.get("eol", "\n")
     ind = " " * layout.get("indent", 2)
+    if layout.get("tab"):
+        ind = "\t" * max(1, layout.get("indent", 2) // 2)
     asg = layout.get("assign", " := ")
     com = layout.get("comma", ",")
     recname = layout.get("recname", "_RWS.wa")
